@@ -178,6 +178,10 @@ structure Rec where
   /-- `some txt`: the stored `duration` is not a natural number at all (negative, fractional, a string — only
   documents of other protocols); `txt` = its text as read back; `dur` is 0 then -/
   durBad : Option String := none
+  /-- the `duration` column of the record's block was consolidated to strings (a document of the block carries a
+  string that is no number there): the stored number comes back as its decimal TEXT; the span structs of the views
+  read such a text like the number since the repair c12-12 -/
+  durAsText : Bool := false
 deriving Repr, DecidableEq, Inhabited
 
 /-- a JSON number as the segment stores it: exact below 2^63, float64 above -/
@@ -186,6 +190,10 @@ def storedNum (v : Nat) : Nat := if v < 2 ^ 63 then v else (Dy.ofNat v).floor
 /-- the stored `duration` does not fit a uint64: the record does not unmarshal into `structs.Span` /
 `structs.GanttChartSpan` -/
 def poison (r : Rec) : Bool := r.dur ≥ 2 ^ 64 || r.durBad.isSome
+
+/-- BEFORE the repair c12-12 a duration that came back as a JSON string — the decimal text of the stored number, after
+the column of its block had been consolidated to strings — did not fit the uint64 fields either -/
+def poisonOld (r : Rec) : Bool := poison r || r.durAsText
 
 def strField (d : List (String × JVal)) (k : String) : Option String :=
   match getKV d k with
@@ -296,10 +304,14 @@ def isStrDur (r : Rec) : Bool :=
 
 /-- pkg/segment/writer/segstore.go `consolidateColumnTypes` (per block; the datasets of the harness are one block): a
 column that holds numbers AND a string that is not a number is rewritten as strings — EVERY duration of the block
-is then returned as a JSON string, which none of the span structs of the views can take.  Known finding
-`trace-views/string-in-duration-column-hides-every-span-of-the-block`. -/
+is then returned as a JSON string: the decimal text of the stored number (`durAsText`; a float is rendered with
+FormatFloat 'f', see `durText`), the documents' own strings as they are.  Since the repair c12-12 the span structs of
+the views (structs.Span / GanttChartSpan UnmarshalJSON) read the decimal text of a uint64 like the number, so the
+views of the other spans of the block are what they are without that document; before, no span of the block could be
+read (`poisonOld`; old known finding `trace-views/string-in-duration-column-hides-every-span-of-the-block`).
+That ParseUint reads the decimal text of `dur` back as `dur` is not modelled (tied by the suite tracee2e). -/
 def consolidate (recs : List Rec) : List Rec :=
-  if recs.any isStrDur then recs.map (fun r => { r with durBad := some (durText r) }) else recs
+  if recs.any isStrDur then recs.map (fun r => if r.durBad.isSome then r else { r with durAsText := true }) else recs
 
 /-- the order in which a `*` search returns the records: newest ingest request first, ingest order within
 a request -/
@@ -521,22 +533,37 @@ def depFold (rs : List Rec) : DepOut :=
   let sv := svcTable rs
   .ok ((depGraph (toSpans rs)).map (fun e => ((sv.getD e.1.1 "", sv.getD e.1.2 ""), e.2)))
 
-/-- the dependency graph of the window: the fold over every readable record -/
-def depOf (recs : List Rec) : DepOut := depFold (readable recs)
+/-- `dropRedeliveredSpans` (patch c12-11): a span that was delivered more than once (an exporter that retries after
+a timeout) is stored once per delivery; of the collected spans with one (trace id, span id) the FIRST is kept — the
+search returns the newest record first, so that is the latest delivery; `seen` = the Go map -/
+def dedupAux (seen : List (String × String)) : List Rec → List Rec
+  | [] => []
+  | r :: rs => if seen.contains (r.trace, r.sid) then dedupAux seen rs else r :: dedupAux ((r.trace, r.sid) :: seen) rs
 
-/-- MakeTracesDependancyGraph: pages through the spans of the window and folds over all of them -/
-def dep (page : Nat) (recs : List Rec) : DepOut := depFold (collectSpans page recs)
+def dedupRecs (rs : List Rec) : List Rec := dedupAux [] rs
+
+/-- the dependency graph of the window: the fold over every readable record, a re-delivered span once -/
+def depOf (recs : List Rec) : DepOut := depFold (dedupRecs (readable recs))
+
+/-- MakeTracesDependancyGraph: pages through the spans of the window, drops the re-delivered ones and folds -/
+def dep (page : Nat) (recs : List Rec) : DepOut := depFold (dedupRecs (collectSpans page recs))
+
+/-- BEFORE the repair c12-11 the fold ran over every stored RECORD: a span delivered twice counted twice -/
+def depOfRecordsOld (recs : List Rec) : DepOut := depFold (readable recs)
 
 /-- BEFORE the repair c12-7 a page was unmarshalled at once into `[]*structs.Span`: ONE record that does not fit made
 the function return nil — no graph for the whole window -/
-def depOld (_page : Nat) (recs : List Rec) : DepOut := if recs.any poison then .nil else depFold recs
+def depOld (_page : Nat) (recs : List Rec) : DepOut := if recs.any poison then .nil else depFold (dedupRecs recs)
 
 /-- BEFORE the repair c12-2: ONE search request without `size`, i.e. the first `page` (100) records only -/
 def depFirstPageOld (page : Nat) (recs : List Rec) : DepOut :=
-  if recs.any poison then .nil else depFold (recs.take page)
+  if recs.any poison then .nil else depFold (dedupRecs (recs.take page))
 
-/-- the spans ProcessRedTracesIngest collects -/
-def redCollect (page : Nat) (recs : List Rec) : List Rec := collectSpans page recs
+/-- the spans ProcessRedTracesIngest collects (re-delivered spans dropped, c12-11) -/
+def redCollect (page : Nat) (recs : List Rec) : List Rec := dedupRecs (collectSpans page recs)
+
+/-- BEFORE the repair c12-11: every stored record -/
+def redCollectRecordsOld (page : Nat) (recs : List Rec) : List Rec := collectSpans page recs
 
 /-- BEFORE the repair c12-7: `none` = a page could not be unmarshalled, the function returned without writing a row -/
 def redCollectOld (_page : Nat) (recs : List Rec) : Option (List Rec) := if recs.any poison then none else some recs
